@@ -326,6 +326,10 @@ class T:
         finally:
             self.locals.pop()
         self.use('lambda')
+        if self.n(8) == 0:
+            # one more parameter than the caller supplies: it stays unbound (never read, or resolved in the enclosing scopes)
+            self.use('lambda:under-applied')
+            return Lam([p, self.pick(['zq', 'm', 'u'])], body)
         return Lam([p], body)
 
     def g_list(self, t, et, d, leaf):
